@@ -114,16 +114,14 @@ Qed.
 
 Lemma list_clear_spec : forall tag l h h1 l1 ok F, lwf l -> linv (lowned l ++ F) h ->
   list_clear tag l h = (h1, l1, ok) ->
-  linv (lowned l1 ++ F) h1 /\ lwf l1 /\ lm l1 = lm l /\ (ok = false -> l1 = l /\ live h1 = live h).
+  linv (lowned l1 ++ F) h1 /\ lwf l1 /\ lm l1 = lm l /\ ok = true /\ h1 = h.
 Proof.
   intros tag l h h1 l1 ok F W I H. unfold list_clear in H.
-  destruct (get_head tag l h) as [[h2 l2] ok2] eqn:G.
-  pose proof (get_head_spec _ _ _ _ _ _ _ I G) as [I2 [SN [HD [TH _]]]].
-  destruct ok2; inversion H; subst; clear H.
-  - specialize (HD eq_refl). split; [|split; [apply lwf_of_head; exact HD | split; [apply SN | discriminate]]].
-    eapply linv_perm; [|exact I2]. unfold lowned, ids_of, hd_list. cbn [lm lhead lnodes lfree].
+  destruct (lhead l) as [hd|] eqn:E; cbn in H; inversion H; subst; clear H.
+  - split; [|split; [apply lwf_of_head; cbn; congruence | auto]].
+    eapply linv_perm; [|exact I]. unfold lowned, ids_of, hd_list. cbn [lm lhead lnodes lfree]. rewrite E.
     apply Permutation_app_tail. apply tagm_perm. permn.
-  - destruct (TH eq_refl) as [-> L]. auto.
+  - auto.
 Qed.
 
 Lemma list_erase_spec : forall l pos, Permutation (lowned (list_erase l pos)) (lowned l) /\
@@ -199,16 +197,8 @@ Proof.
     + eapply linv_perm; [|exact Ii]. apply Permutation_app_tail. apply Permutation_sym. exact P.
   - destruct (list_clear TAG_LNODE (sel i w) h) as [[h2 l2] ok2] eqn:E. inversion H; subst.
     destruct (linv2_sel i w h V) as [Wi [Wo Ii]]. eapply list_clear_spec in E; eauto.
-    destruct E as [I2 [W2 [M2 T2]]]. split; [apply linv2_upd; auto|].
-    intros Eo. destruct (T2 Eo) as [-> _]. apply only_heads_upd. apply same_nodes_refl.
-  - destruct (get_head TAG_LNODE (sel i w) h) as [[h2 l2] ok2] eqn:E. inversion H; subst.
-    destruct (linv2_sel i w h V) as [Wi [Wo Ii]].
-    pose proof (get_head_spec _ _ _ _ _ _ _ Ii E) as [I2 [SN [HD [TH _]]]]. split.
-    + apply linv2_upd; auto. intros E0. destruct SN as [_ [N Fr]]. rewrite N, Fr.
-      destruct (lhead (sel i w)) eqn:E1.
-      * unfold get_head in E. rewrite E1 in E. inversion E; subst. congruence.
-      * apply Wi; auto.
-    + intros _. apply only_heads_upd. exact SN.
+    destruct E as [I2 [W2 [M2 [-> ->]]]]. split; [apply linv2_upd; auto | discriminate].
+  - cbn in H. inversion H; subst. split; [exact V | discriminate].
   - cbn in H. inversion H; subst. split; [|discriminate].
     destruct w as [a b]. destruct V as [Wa [Wb I]]. cbn in *.
     split; [exact Wb | split; [exact Wa | eapply linv_perm; [apply Permutation_app_comm | exact I]]].
@@ -246,16 +236,8 @@ Definition bowned (m : mgr) (b : ablock) : list (nat * mgr) := tagm m (bstruct b
 Definition blocks_owned (m : mgr) (bs : list ablock) : list (nat * mgr) := concat (map (bowned m) bs).
 Definition aowned (a : arena) : list (nat * mgr) := lowned (alist a) ++ blocks_owned (am a) (ablocks a).
 
-Definition awf (a : arena) : Prop := lwf (alist a) /\ (lhead (alist a) = None -> ablocks a = []).
+Definition awf (a : arena) : Prop := lwf (alist a) /\ (lnodes (alist a) = [] -> ablocks a = []).
 Definition ainv (a : arena) (h : heap) : Prop := awf a /\ linv (aowned a ++ aleak a) h.
-
-Lemma ainv_intro : forall l bs sz lk h, lhead l <> None ->
-  linv (lowned l ++ blocks_owned (lm l) bs ++ lk) h -> ainv (mkarena l bs sz lk) h.
-Proof.
-  intros l bs sz lk h HD I. split.
-  - split; [apply lwf_of_head; auto | intros E0; contradiction].
-  - unfold aowned, am. cbn. rewrite <- app_assoc. exact I.
-Qed.
 
 Lemma blocks_owned_app : forall m x y, blocks_owned m (x ++ y) = blocks_owned m x ++ blocks_owned m y.
 Proof. intros; unfold blocks_owned. rewrite map_app, concat_app. reflexivity. Qed.
@@ -301,99 +283,113 @@ Proof. intros a H E. unfold last_full in H. rewrite E in H. discriminate. Qed.
 Definition leak_step (a a1 : arena) : Prop :=
   aleak a1 = aleak a \/ exists bs st, aleak a1 = (bs, am a) :: (st, am a) :: aleak a.
 
+(* without a fuse nothing is refused and the fuse stays off *)
+Lemma alloc_fuse_none : forall m t c h h1 r, fuse h = None -> alloc m t c h = (h1, r) -> r <> None /\ fuse h1 = None.
+Proof.
+  intros m t c h h1 r F A. destruct (alloc_nofuse m t c h F) as [hx [Ax Fx]]. rewrite Ax in A.
+  inversion A; subst. split; [discriminate | exact Fx].
+Qed.
+
+Lemma get_head_nofuse : forall tag l h h1 l1 ok, fuse h = None -> get_head tag l h = (h1, l1, ok) ->
+  ok = true /\ fuse h1 = None.
+Proof.
+  intros tag l h h1 l1 ok F G. unfold get_head in G. destruct (lhead l); [inversion G; subst; auto|].
+  destruct (alloc (lm l) tag 1 h) as [h2 [id|]] eqn:A; destruct (alloc_fuse_none _ _ _ _ _ _ F A) as [N F2];
+    inversion G; subst; auto; try contradiction; try (exfalso; apply N; reflexivity).
+Qed.
+
+Lemma construct_node_nofuse : forall tag l pos h h1 l1 ok, fuse h = None -> construct_node tag l pos h = (h1, l1, ok) ->
+  ok = true /\ fuse h1 = None.
+Proof.
+  intros tag l pos h h1 l1 ok F G. unfold construct_node in G. destruct (lfree l); [|inversion G; subst; auto].
+  destruct (alloc (lm l) tag 1 h) as [h2 [id|]] eqn:A; destruct (alloc_fuse_none _ _ _ _ _ _ F A) as [N F2];
+    inversion G; subst; auto; try contradiction; try (exfalso; apply N; reflexivity).
+Qed.
+
+Lemma list_insert_nofuse : forall tag l pos h h1 l1 ok, fuse h = None -> list_insert tag l pos h = (h1, l1, ok) ->
+  ok = true /\ fuse h1 = None.
+Proof.
+  intros tag l pos h h1 l1 ok F G. unfold list_insert in G.
+  destruct (get_head tag l h) as [[h2 l2] ok2] eqn:E. destruct (get_head_nofuse _ _ _ _ _ _ F E) as [-> F2].
+  eapply construct_node_nofuse; eauto.
+Qed.
+
+Lemma list_insert_nonempty : forall tag l pos h h1 l1, list_insert tag l pos h = (h1, l1, true) -> lnodes l1 <> [].
+Proof.
+  intros tag l pos h h1 l1 G. unfold list_insert in G.
+  destruct (get_head tag l h) as [[h2 l2] ok2] eqn:E. destruct ok2; [|inversion G].
+  unfold construct_node in G. destruct (lfree l2).
+  - destruct (alloc (lm l2) tag 1 h2) as [h3 [id|]]; inversion G; subst; cbn.
+    unfold insert_at. intro X. apply app_eq_nil in X. destruct X as [_ X]. discriminate.
+  - inversion G; subst; cbn. unfold insert_at. intro X. apply app_eq_nil in X. destruct X as [_ X]. discriminate.
+Qed.
+
+Lemma arena_new_block_spec : forall a h h1 a1 ok, ainv a h -> arena_new_block a h = (h1, a1, ok) ->
+  ainv a1 h1 /\ am a1 = am a /\ absize a1 = absize a /\ leak_step a a1 /\
+  (ok = true -> aleak a1 = aleak a /\ ablocks a1 <> []) /\ (fuse h = None -> ok = true /\ fuse h1 = None).
+Proof.
+  intros a h h1 a1 ok [[Wl Wb] I] H. unfold arena_new_block in H. unfold leak_step.
+  destruct (alloc (am a) TAG_ABLK 1 h) as [h2 [bs|]] eqn:A1.
+  2:{ inversion H; subst. split; [split; [split; auto | eapply linv_throw; eauto]|].
+      sp; auto; try discriminate. intros Fz. destruct (alloc_fuse_none _ _ _ _ _ _ Fz A1) as [N _]. contradiction. }
+  pose proof (linv_alloc _ _ _ _ _ _ _ I A1) as I2.
+  destruct (alloc (am a) TAG_ASTORE (absize a) h2) as [h3 [st|]] eqn:A2.
+  2:{ inversion H; subst. split; [split; [split; auto | apply linv_free; eapply linv_throw; eauto]|].
+      sp; auto; try discriminate. intros Fz. destruct (alloc_fuse_none _ _ _ _ _ _ Fz A1) as [_ F2].
+      destruct (alloc_fuse_none _ _ _ _ _ _ F2 A2) as [N _]. contradiction. }
+  pose proof (linv_alloc _ _ _ _ _ _ _ I2 A2) as I3.
+  assert (I3' : linv (lowned (alist a) ++ ((st, am a) :: (bs, am a) :: blocks_owned (am a) (ablocks a) ++ aleak a)) h3).
+  { eapply linv_perm; [|exact I3]. unfold aowned. permp. }
+  destruct (list_insert TAG_ANODE (alist a) (length (lnodes (alist a))) h3) as [[h4 l2] ok2] eqn:LI.
+  pose proof (list_insert_spec _ _ _ _ _ _ _ _ Wl I3' LI) as [I4 [W4 [M4 T4]]].
+  assert (FZ : fuse h = None -> ok2 = true /\ fuse h4 = None).
+  { intros Fz. destruct (alloc_fuse_none _ _ _ _ _ _ Fz A1) as [_ F2].
+    destruct (alloc_fuse_none _ _ _ _ _ _ F2 A2) as [_ F3]. eapply list_insert_nofuse; eauto. }
+  destruct ok2; inversion H; subst; clear H.
+  - split.
+    + split; [split; [exact W4|]|].
+      * cbn. intros E. exfalso. eapply list_insert_nonempty; eauto.
+      * unfold aowned. cbn [alist ablocks aleak am]. rewrite blocks_owned_app.
+        eapply linv_perm; [|exact I4]. unfold am in *. cbn [alist ablocks aleak]. rewrite ?M4.
+        unfold blocks_owned at 3. unfold bowned. cbn. permp.
+    + sp; cbn; auto; try discriminate.
+      * intros _. split; auto. destruct (ablocks a); discriminate.
+  - split.
+    + split; [split; [exact W4|]|].
+      * cbn. intros E. apply Wb. destruct (T4 eq_refl) as [[[_ [N _]] _]|[hd [_ [_ [N _]]]]]; congruence.
+      * unfold aowned. eapply linv_perm; [|exact I4]. unfold am in *. cbn [alist ablocks aleak]. rewrite ?M4. permp.
+    + sp; cbn; auto; try discriminate; try (intros Fz; destruct (FZ Fz); discriminate).
+      right. exists bs, st. unfold am. rewrite ?M4. reflexivity.
+Qed.
+
 Lemma arena_new_obj_spec : forall a osz h h1 a1 ok, ainv a h -> arena_new_obj a osz h = (h1, a1, ok) ->
   ainv a1 h1 /\ am a1 = am a /\ absize a1 = absize a /\ leak_step a a1 /\ (ok = true -> aleak a1 = aleak a) /\
-  (fuse h = None -> ok = true).
+  (fuse h = None -> ok = true /\ fuse h1 = None).
 Proof.
-  intros a osz h h1 a1 ok [[Wl Wb] I] H. unfold arena_new_obj in H. unfold leak_step.
-  destruct (get_head TAG_ANODE (alist a) h) as [[h2 l2] ok2] eqn:G.
-  unfold aowned in I. rewrite <- app_assoc in I.
-  pose proof (get_head_spec _ _ _ _ _ _ _ I G) as [I2 [[SM [SN SF]] [HD [TH _]]]].
-  destruct ok2.
-  2:{ inversion H; subst. destruct (TH eq_refl) as [-> L]. split.
-      - split; [split; auto|]. unfold aowned. rewrite <- app_assoc. exact I2.
-      - sp; auto; try discriminate. intros Fz. unfold get_head in G.
-        destruct (lhead (alist a1)); [inversion G|].
-        destruct (alloc_nofuse (lm (alist a1)) TAG_ANODE 1 h Fz) as [hx [Ax _]]. rewrite Ax in G. inversion G. }
-  specialize (HD eq_refl).
-  assert (F2 : fuse h = None -> fuse h2 = None).
-  { intros Fz. unfold get_head in G. destruct (lhead (alist a)); [inversion G; subst; auto|].
-    destruct (alloc_nofuse (lm (alist a)) TAG_ANODE 1 h Fz) as [hx [Ax Fx]]. rewrite Ax in G. inversion G; subst; auto. }
-  set (a1' := mkarena l2 (ablocks a) (absize a) (aleak a)) in *.
-  assert (AM : am a1' = am a) by (unfold am; cbn; exact SM).
-  (* the block-creation part *)
-  assert (R : forall h5 a2 okr,
-     (if last_full a1' then
-        match alloc (am a1') TAG_ABLK 1 h2 with
-        | (h2', None) => (h2', a1', false)
-        | (h2', Some bs) =>
-            match alloc (am a1') TAG_ASTORE (absize a1') h2' with
-            | (h3, None) => (free (am a1') bs h3, a1', false)
-            | (h3, Some st) =>
-                match construct_node TAG_ANODE l2 (length (lnodes l2)) h3 with
-                | (h4, l3, true) => (h4, mkarena l3 (ablocks a1' ++ [mkblk bs st []]) (absize a1') (aleak a1'), true)
-                | (h4, _, false) => (h4, mkarena l2 (ablocks a1') (absize a1') ((bs, am a1') :: (st, am a1') :: aleak a1'), false)
-                end
-            end
-        end
-      else (h2, a1', true)) = (h5, a2, okr) ->
-     ainv a2 h5 /\ am a2 = am a /\ absize a2 = absize a /\ lhead (alist a2) <> None /\
-     (aleak a2 = aleak a \/ exists bs st, aleak a2 = (bs, am a) :: (st, am a) :: aleak a) /\
+  intros a osz h h1 a1 ok V H. unfold arena_new_obj in H.
+  assert (R : forall h5 a2 okr, (if last_full a then arena_new_block a h else (h, a, true)) = (h5, a2, okr) ->
+     ainv a2 h5 /\ am a2 = am a /\ absize a2 = absize a /\ leak_step a a2 /\
      (okr = true -> aleak a2 = aleak a /\ ablocks a2 <> []) /\ (fuse h = None -> okr = true /\ fuse h5 = None)).
-  { intros h5 a2 okr E.
-    assert (I1' : linv (lowned l2 ++ blocks_owned (am a1') (ablocks a) ++ aleak a) h2).
-    { rewrite AM. exact I2. }
-    assert (NF : forall tg c hh, fuse hh = None -> forall hx, alloc (am a1') tg c hh = (hx, None) -> False).
-    { intros tg c hh Fz hx Ax. destruct (alloc_nofuse (am a1') tg c hh Fz) as [hy [Ay _]]. rewrite Ay in Ax. inversion Ax. }
-    destruct (last_full a1') eqn:LF.
-    2:{ inversion E; subst. split; [apply ainv_intro; auto|].
-        sp; cbn; auto; try discriminate. intros _. split; auto. apply last_full_nonempty in LF. exact LF. }
-    destruct (alloc (am a1') TAG_ABLK 1 h2) as [h3 [bs|]] eqn:A1.
-    2:{ inversion E; subst. split; [apply ainv_intro; auto; eapply linv_throw; eauto|].
-        sp; cbn; auto; try discriminate. intros Fz. exfalso. eapply (NF _ _ _ (F2 Fz)); eauto. }
-    pose proof (linv_alloc _ _ _ _ _ _ _ I1' A1) as I3.
-    assert (F3 : fuse h = None -> fuse h3 = None).
-    { intros Fz. destruct (alloc_nofuse (am a1') TAG_ABLK 1 h2 (F2 Fz)) as [hx [Ax Fx]]. rewrite Ax in A1. inversion A1; subst; auto. }
-    destruct (alloc (am a1') TAG_ASTORE (absize a1') h3) as [h4 [st|]] eqn:A2.
-    2:{ inversion E; subst. split; [apply ainv_intro; auto; apply linv_free; eapply linv_throw; eauto|].
-        sp; cbn; auto; try discriminate. intros Fz. exfalso. eapply (NF _ _ _ (F3 Fz)); eauto. }
-    pose proof (linv_alloc _ _ _ _ _ _ _ I3 A2) as I4.
-    assert (F4 : fuse h = None -> fuse h4 = None).
-    { intros Fz. destruct (alloc_nofuse (am a1') TAG_ASTORE (absize a1') h3 (F3 Fz)) as [hx [Ax Fx]]. rewrite Ax in A2. inversion A2; subst; auto. }
-    assert (I4' : linv (lowned l2 ++ ((st, am a1') :: (bs, am a1') :: blocks_owned (am a1') (ablocks a) ++ aleak a)) h4).
-    { eapply linv_perm; [|exact I4]. permp. }
-    destruct (construct_node TAG_ANODE l2 (length (lnodes l2)) h4) as [[h6 l3] ok3] eqn:C.
-    pose proof (construct_node_spec _ _ _ _ _ _ _ _ I4' C) as [I5 [H5 [M5 T5]]].
-    assert (CF : fuse h = None -> ok3 = true /\ fuse h6 = None).
-    { intros Fz. unfold construct_node in C. destruct (lfree l2); [|inversion C; subst; auto].
-      destruct (alloc_nofuse (lm l2) TAG_ANODE 1 h4 (F4 Fz)) as [hx [Ax Fx]]. rewrite Ax in C. inversion C; subst; auto. }
-    destruct ok3; inversion E; subst; clear E.
-    - split.
-      + apply ainv_intro; [congruence|]. rewrite blocks_owned_app.
-        eapply linv_perm; [|exact I5]. unfold am in *. cbn [alist] in *. rewrite M5.
-        unfold blocks_owned at 3. unfold bowned. cbn. permp.
-      + sp; cbn; auto; try discriminate; try congruence.
-        * unfold am in *; cbn in *; congruence.
-        * intros _. split; auto. destruct (ablocks a); discriminate.
-    - destruct (T5 eq_refl) as [-> L]. split.
-      + apply ainv_intro; auto. eapply linv_perm; [|exact I5]. unfold am, a1' in *; cbn [alist] in *. permp.
-      + sp; cbn; auto; try discriminate; try (intros Fz; destruct (CF Fz); discriminate).
-        right. exists bs, st. rewrite AM. reflexivity. }
-  match type of H with (match ?r with _ => _ end) = _ => destruct r as [[h5 a2] okr] eqn:ER end.
-  destruct (R _ _ _ eq_refl) as [[[Wl2 Wb2] I5] [AM2 [BS2 [HD2 [LK [OKL FZ]]]]]].
+  { intros h5 a2 okr E. destruct (last_full a) eqn:LF.
+    - eapply arena_new_block_spec; eauto.
+    - inversion E; subst. sp; auto. left; reflexivity. intros _. split; auto. apply last_full_nonempty; auto. }
+  destruct (if last_full a then arena_new_block a h else (h, a, true)) as [[h5 a2] okr] eqn:ER.
+  destruct (R _ _ _ eq_refl) as [[[Wl2 Wb2] I5] [AM2 [BS2 [LK [OKL FZ]]]]].
   destruct okr.
   2:{ inversion H; subst. split; [split; [split; auto|auto]|].
-      sp; auto; try discriminate. intros Fz. destruct (FZ Fz); discriminate. }
+      sp; auto; try discriminate; try (intros Fz; destruct (FZ Fz); discriminate). }
   destruct (OKL eq_refl) as [LK2 NE].
   destruct (alloc (am a2) TAG_BYTE osz h5) as [h6 [o|]] eqn:A3; inversion H; subst; clear H.
   - split.
-    + split; [split; [exact Wl2 | intros E0; contradiction]|].
-      pose proof (linv_alloc _ _ _ _ _ _ _ I5 A3) as A3'.
-      eapply linv_perm; [|exact A3']. unfold aowned. cbn [alist ablocks aleak am].
-      rewrite (add_obj_perm (lm (alist a2)) (ablocks a2) o NE). unfold am. permp.
-    + sp; cbn; auto; try discriminate.
+    + split; [split; [exact Wl2 |]|].
+      * cbn. intros E. exfalso. apply NE. apply Wb2. exact E.
+      * pose proof (linv_alloc _ _ _ _ _ _ _ I5 A3) as A3'.
+        eapply linv_perm; [|exact A3']. unfold aowned. cbn [alist ablocks aleak am].
+        rewrite (add_obj_perm (lm (alist a2)) (ablocks a2) o NE). unfold am. permp.
+    + sp; cbn; auto; try discriminate; try (unfold leak_step in *; cbn; exact LK);
+        try (intros Fz; destruct (FZ Fz) as [_ F5]; destruct (alloc_fuse_none _ _ _ _ _ _ F5 A3) as [_ F6]; auto).
   - split.
     + split; [split; auto|]. eapply linv_throw; eauto.
-    + sp; auto; try discriminate. intros Fz. destruct (FZ Fz) as [_ F5].
-      destruct (alloc_nofuse (am a1) TAG_BYTE osz h5 F5) as [hx [Ax _]]. rewrite Ax in A3. inversion A3.
+    + sp; auto; try discriminate;
+        try (intros Fz; destruct (FZ Fz) as [_ F5]; destruct (alloc_fuse_none _ _ _ _ _ _ F5 A3) as [N _]; exfalso; apply N; reflexivity).
 Qed.
